@@ -744,7 +744,7 @@ def run(tier, seed):
     multi = [i for i, o in enumerate(out_a) if o.startswith("ERR\tValidation") and not o.startswith("ERR\tValidation\t1\t")]
     multi_set = set(multi)
     others = [i for i in range(len(cases)) if i not in multi_set]
-    n_thr = 300 if tier == "quick" else 6000
+    n_thr = 250 if tier == "quick" else 6000
     t_ix = list(range(len(corpus))) + rng.sample(multi, min(len(multi), n_thr * 2 // 3))
     t_ix += rng.sample(others, min(len(others), n_thr - len(t_ix) + len(corpus)))
     BATCH = 25
@@ -929,7 +929,7 @@ def run(tier, seed):
 
     # vm_compute slice of the location queries: guards extraction and the OCaml tree parser
     if loc_queries:
-        k = min(len(loc_queries), 110)
+        k = min(len(loc_queries), 100)
         sl = rng.sample(range(len(loc_queries)), k)
         exprs = []
         for j in sl:
